@@ -46,6 +46,26 @@ def write_stress_templates(d, lang):
         f.write("# namespace {{ T.full_name }}\n")
 
 
+def write_failing_templates(d):
+    """User templates that abort in the middle of an output line (fault history: the caller catches the error and goes on)."""
+    os.makedirs(d, exist_ok=True)
+    for n in ("StructureType", "UnionType", "DelimitedType", "ServiceType"):
+        with open(os.path.join(d, n + ".j2"), "w") as f:
+            f.write("// first line of {{ T.full_name }}\n\n\n} // partial line, then a statement raises: {% if T.no_such_attribute.deeper %}x{% endif %} rest\n")
+    return d
+
+
+def failed_generation_first(ctx, d, types, root_dir, lang):
+    bad = write_failing_templates(os.path.join(d, "failing_templates"))
+    o = os.path.join(d, "out_failed")
+    try:
+        genrun.gen_inprocess(types, root_dir, o, lang, templates_dir=bad)
+        ctx.count("injected_generation_faults_that_did_not_fail")
+    except Exception:
+        ctx.count("injected_generation_faults")
+    shutil.rmtree(o, ignore_errors=True)
+
+
 def per_type_files(files, ns_stem):
     return {k: v for k, v in files.items() if os.path.splitext(os.path.basename(k))[0] != ns_stem}
 
@@ -199,12 +219,34 @@ def one_set(ctx, idx, probes):
                         variants.append(("closed", run(list(reversed(sub)))))
                     except Exception as e:
                         ctx.refute(None, "variant closed failed: %r" % e, dict(set=idx, root=root, lang=lang))
+                for flang in ("c", "py"):
+                    try:
+                        failed_generation_first(ctx, d, types, root_dir, flang)
+                        variants.append(("after_failed", run(types)))
+                    except Exception as e:
+                        ctx.refute(None, "variant after_failed failed: %r" % e, dict(set=idx, root=root, lang=lang))
+                # and every single earlier generate_all() on the same generator objects that differs in one per-call option
+                for pre in ([dict(omit_serialization_support=True)], [dict(embed_auditing_info=True)], [dict(is_dryrun=True, omit_serialization_support=True)],
+                            [dict(is_dryrun=True, embed_auditing_info=True)], [dict(allow_overwrite=False)],
+                            [dict(omit_serialization_support=True, embed_auditing_info=True), dict(is_dryrun=True)]):
+                    try:
+                        variants.append(("same_generator", run(types, pre_calls=pre)))
+                    except Exception as e:
+                        ctx.refute(None, "variant same_generator failed: %r" % e, dict(set=idx, root=root, lang=lang, pre_calls=pre))
             for v in range(nvar):
-                kind = R.choice(["perm", "subset", "closed", "again", "after_other", "after_config", "config_vs_fresh"])
+                kind = R.choice(["perm", "subset", "closed", "again", "after_other", "after_config", "config_vs_fresh", "same_generator", "after_failed"])
                 if kind == "config_vs_fresh" and (lang == "html" or tdir):
                     kind = "perm"
                 try:
-                    if kind == "perm":
+                    if kind == "after_failed":
+                        failed_generation_first(ctx, d, types, root_dir, R.choice(["c", "py", lang]))
+                        variants.append((kind, run(types)))
+                    elif kind == "same_generator":
+                        # earlier generate_all() calls on the very same generator objects, with other per-call options
+                        pre = [dict(is_dryrun=R.random() < 0.4, omit_serialization_support=R.random() < 0.5, embed_auditing_info=R.random() < 0.5)
+                               for _ in range(R.choice([1, 2, 3]))]
+                        variants.append((kind, run(types, pre_calls=pre)))
+                    elif kind == "perm":
                         variants.append((kind, run(types, order_seed=R.random())))
                     elif kind == "subset":
                         sub = [t for t in types if R.random() < 0.5] or types[:1]
@@ -379,3 +421,4 @@ def run(ctx):
     ctx.require("probe_unique_name_resets", 100)
     ctx.require("probe_limit_empty_lines_calls", 1000)
     ctx.require("cli_file_agree", 10)
+    ctx.require("injected_generation_faults", 4)
